@@ -163,6 +163,83 @@ theorem mem_route_iff_spec {cfg : Config} (wf : cfg.WF) {ev : Event} (hev : 0 < 
   · rintro ⟨h1, h2, h3⟩; exact ⟨h1, h3, h2⟩
   · rintro ⟨h1, h2, h3⟩; exact ⟨h1, h3, h2⟩
 
+/-! ### what the code does in general (F12a / F12c included) -/
+
+/-- the gate the code applies: like `GateOk`, but loggers that name no appender are invisible -/
+def GateOkWired (cfg : Config) (ev : Event) (a : Appender) : Prop :=
+  ∀ w ∈ cfg.loggers, matchesB w ev = true → w.appenders ≠ [] →
+    (∀ l' ∈ cfg.loggers, matchesB l' ev = true → l'.appenders ≠ [] → l'.name.length ≤ w.name.length) →
+    w.additive = false → a ∈ w.appenders
+
+/-- exact, order-independent description of `route` -/
+def CodeSpec (cfg : Config) (ev : Event) (a : Appender) : Prop :=
+  a ∈ cfg.appenders ∧ Admits cfg ev a ∧ GateOkWired cfg ev a
+
+theorem gatePass_iff_gateOkWired {cfg : Config} (wf : cfg.WF) {ev : Event} (a : Appender) :
+    gatePass cfg ev a = true ↔ GateOkWired cfg ev a := by
+  by_cases hex : ∃ l ∈ cfg.loggers, matchesB l ev = true ∧ Wired l
+  · obtain ⟨w, hwl, ⟨hwm, hwired⟩, hwmax0⟩ :=
+      exists_longest (fun l => matchesB l ev = true ∧ Wired l) cfg.loggers hex
+    have hwmax : ∀ l' ∈ cfg.loggers, matchesB l' ev = true → Wired l' → l'.name.length ≤ w.name.length :=
+      fun l' hl' hm' hw' => hwmax0 l' hl' ⟨hm', hw'⟩
+    have hwin := winnerOf_of_wiredMost wf hwl hwm hwired hwmax
+    have huniq : ∀ w' ∈ cfg.loggers, matchesB w' ev = true → Wired w' →
+        (∀ l' ∈ cfg.loggers, matchesB l' ev = true → Wired l' → l'.name.length ≤ w'.name.length) → w' = w := by
+      intro w' hw'l hw'm hw'w hw'max
+      have h1 := hw'max w hwl hwm hwired
+      have h2 := hwmax w' hw'l hw'm hw'w
+      exact logger_unique wf hw'l hwl hw'm hwm (by omega)
+    unfold gatePass GateOkWired
+    rw [hwin]
+    cases hadd : w.additive with
+    | true =>
+      simp only [gateOf, true_iff]
+      intro w' hw'l hw'm hw'w hw'max hna
+      rw [huniq w' hw'l hw'm hw'w hw'max, hadd] at hna; cases hna
+    | false =>
+      simp only [gateOf]
+      constructor
+      · intro h w' hw'l hw'm hw'w hw'max _
+        rw [huniq w' hw'l hw'm hw'w hw'max]
+        cases hr : ruleOf cfg ev a with
+        | none => rw [hr] at h; cases h
+        | some r =>
+          rw [hr] at h
+          obtain ⟨l, hmsn, rfl⟩ := ruleOf_some hr
+          simp only [ruleOfLogger, beq_iff_eq] at h
+          have : l = w := eq_of_nodup_map (·.name) wf.names_nodup hmsn.1 hwl h
+          rw [← this]; exact hmsn.2.2.1
+      · intro h
+        have ha : a ∈ w.appenders := h w hwl hwm hwired hwmax hadd
+        have hmsn : MostSpecificNaming cfg ev a w :=
+          ⟨hwl, hwm, ha, fun l' hl' hm' ha' => hwmax l' hl' hm' (fun hnil => by rw [hnil] at ha'; cases ha')⟩
+        rw [ruleOf_of_mostSpecificNaming wf hmsn]
+        simp [ruleOfLogger]
+  · have hno : ∀ l ∈ cfg.loggers, matchesB l ev = true → ¬ Wired l :=
+      fun l hl hm hw => hex ⟨l, hl, hm, hw⟩
+    unfold gatePass GateOkWired
+    rw [winnerOf_none_of_no_wired_match wf hno]
+    simp only [gateOf, true_iff]
+    intro w hwl hwm hww
+    exact absurd hww (hno w hwl hwm)
+
+/-- **what the code does, exactly** (no hypothesis about appender-less loggers). -/
+theorem mem_route_iff_codeSpec {cfg : Config} (wf : cfg.WF) {ev : Event} (hev : 0 < ev.level)
+    (a : Appender) : a ∈ route cfg ev ↔ CodeSpec cfg ev a := by
+  rw [mem_route, decision_eq, Bool.and_eq_true, gatePass_iff_gateOkWired wf, levelOk_iff_admits wf hev]
+  unfold CodeSpec
+  constructor
+  · rintro ⟨h1, h2, h3⟩; exact ⟨h1, h3, h2⟩
+  · rintro ⟨h1, h2, h3⟩; exact ⟨h1, h3, h2⟩
+
+/-- `CodeSpec` only looks at membership: it does not depend on hash-map iteration order. -/
+theorem codeSpec_congr {cfg cfg' : Config} (ha : ∀ x, x ∈ cfg'.appenders ↔ x ∈ cfg.appenders)
+    (hl : ∀ l, l ∈ cfg'.loggers ↔ l ∈ cfg.loggers) (hrl : cfg'.rootLevel = cfg.rootLevel)
+    (hra : ∀ x, x ∈ cfg'.rootAppenders ↔ x ∈ cfg.rootAppenders) (ev : Event) (a : Appender) :
+    CodeSpec cfg' ev a ↔ CodeSpec cfg ev a := by
+  unfold CodeSpec Admits GateOkWired
+  simp only [ha, hl, hrl, hra]
+
 theorem allWired_winnerWired {cfg : Config} (h : AllWired cfg) (ev : Event) : WinnerWired cfg ev :=
   fun w hw _ _ => h w hw
 
